@@ -58,6 +58,11 @@ def traces(ctx, which, shards, runs, maxlen):
         for j, line in enumerate(f):
             if j < 3:
                 ctx.sample({"stage": "trace", "event": json.loads(line)})
+    # the lemma LongTrace relies on: the one-pass form of "every window of the run has minimiser v" is the plain form
+    r = vlib.tlc("MCRunCover", rundir=ctx.rundir, timeout=1200)
+    ctx.add_mc("lemma RunCover: one-pass window-minimum test = per-window test, all sequences over 3 values up to length 8", r)
+    if r.violated:
+        raise vlib.ToolError("the RunCover lemma does not hold on the specification itself: " + str(r.violated))
     # positions beyond 2^16: one long run judged run by run without history (LongTrace); the thorough tier uses a sequence
     # that is clean almost everywhere (tens of thousands of windows), the quick tier one with a long ambiguous middle part
     lt = ctx.path("%s_long.ndjson" % which)
